@@ -8,7 +8,7 @@
  *    janet_continue_signal inside ev.c only), which logs  (tick, fiber, sched_id, signal, value) -> signal out.
  *  - accessors for the file-static structures (channel pending queues, timer heap, task queue).
  *
- * Usage:  evwrap <scenario-file> [--early]      scenario-file:  "@@@ <id>\n<janet source>\n" ...
+ * Usage:  evwrap <scenario-file> [--early] [--late K]      scenario-file:  "@@@ <id>\n<janet source>\n" ...
  * Every scenario runs in a forked child with its own janet_init (crash / hang isolation).
  */
 #define _GNU_SOURCE
@@ -38,6 +38,7 @@ static int timer_armed = 0;
 static int64_t timer_deadline = 0;
 static int early_wake = 0;        /* deliver one spurious timer wake-up one tick early */
 static int early_done = 0;
+static int late_wake = 0;         /* the loop wakes up this many ms after the armed deadline (a busy machine) */
 static FILE *lg;                  /* log stream (memory) */
 static char *lgbuf; static size_t lgsize;
 static const int64_t T0 = 1000;
@@ -121,7 +122,7 @@ int verif_epoll_wait(int epfd, struct epoll_event *events, int max, int timeout)
             early_done = 1; vnow = timer_deadline - 1;      /* spurious early wake-up: loop must re-check */
         } else {
             early_done = 0;
-            if (timer_deadline > vnow) vnow = timer_deadline;
+            if (timer_deadline + late_wake > vnow) vnow = timer_deadline + late_wake;
             timer_armed = 0;
         }
         events[0].events = EPOLLIN; events[0].data.ptr = &janet_vm.timerfd;
@@ -268,7 +269,10 @@ static void run_scenario(const char *id, const char *src) {
 
 int main(int argc, char **argv) {
     if (argc < 2) return 2;
-    for (int i = 2; i < argc; i++) if (!strcmp(argv[i], "--early")) early_wake = 1;
+    for (int i = 2; i < argc; i++) {
+        if (!strcmp(argv[i], "--early")) early_wake = 1;
+        if (!strcmp(argv[i], "--late") && i + 1 < argc) late_wake = atoi(argv[++i]);
+    }
     FILE *f = fopen(argv[1], "r");
     if (!f) return 2;
     char *line = NULL; size_t cap = 0; ssize_t len;
